@@ -14,7 +14,7 @@ A unit template (contracts/<unit>.rs.in) is ordinary Rust/Verus text with direct
   //@ end
 
 Signature and body are copied verbatim from the working tree, then the documented rewrite rules
-(R1 err-text, R2 attributes/visibility, R6 let-chains, R7 named return, R8 Self::Item expansion, R9 `|_|` closure parameter named, R13 closure contract) are applied by pattern and
+(R1 err-text, R2 attributes/visibility, R6 let-chains, R7 named return, R8 Self::Item expansion, R9 `|_|` closure parameter named, R13 closure contract; opt-in: R10, R12, R14, R15) are applied by pattern and
 counted.  Everything the template adds is ghost (requires/ensures/invariant/decreases/proof).
 A directive whose anchor cannot be found raises AnchorError => the unit is 'undecided'.
 """
@@ -521,6 +521,20 @@ def build_unit(template, repo, out_path, contracts_dir=None, vacuity=False):
                 raise AnchorError("Self::Item used but the impl has no `type Item = ...;`")
             sig = sig.replace("Self::Item", src[cs:ce][tm.start(1):tm.end(1)].strip())
             local["R8"] = local.get("R8", 0) + 1
+        if opts.get("mono"):
+            # R15 (opt-in, counted): a type parameter of the function itself is instantiated with an opaque type of
+            # the unit prelude (`mono=Store:AnyStore`): `<Store: Bound>` is dropped from the signature and `Store`
+            # is replaced by `AnyStore` in signature and body.  Needed where this Verus loses closure contracts
+            # (Iterator::map) inside type-generic functions (T10); the prelude type is `external_body`, so nothing
+            # but the bound is known about it.
+            par, ty = opts["mono"].split(":")
+            gm = re.search(r"<\s*" + re.escape(par) + r"\s*:\s*[\w:]+\s*>", sig)
+            if not gm:
+                raise AnchorError(f"R15: `<{par}: Bound>` is not the function's only generic parameter list any more")
+            sig = sig[:gm.start()] + sig[gm.end():]
+            sig = re.sub(r"\b" + re.escape(par) + r"\b", ty, sig)
+            body = re.sub(r"\b" + re.escape(par) + r"\b", ty, body)
+            local["R15"] = local.get("R15", 0) + 1
         if opts.get("ret"):
             sig = rule_R7(sig, opts["ret"], local)
         if opts.get("as"):
